@@ -125,8 +125,13 @@ def r1_len_accounting(ctx):
             if c and c[0] == 'inc' and (c[2] or '').endswith('DualLinkedList'):
                 incs.add(c[1])
         lf = incs.pop() if len(incs) == 1 else None
-    if ctx.check(lf is not None, 'list-len-getter', 'DualLinkedList keeps a stored element counter (returned by len / incremented by add)',
-                 llen.where() if llen else None, 'field: %s' % lf):
+    la = P.adts.get(L) or {}
+    int_fields = [fd['n'] for v in la.get('variants', []) for fd in v['fields'] if fd['ty'] in ('usize', 'u64', 'u32', 'isize')]
+    if lf is None and not int_fields:
+        # the list keeps no counter at all (emptiness is read off the links): nothing to pair, as for the heap back end
+        ctx.ok('DualLinkedList stores no element counter (emptiness derived from the links): nothing to pair', None)
+    elif ctx.check(lf is not None, 'list-len-getter', 'DualLinkedList keeps a stored element counter (returned by len / incremented by add)',
+                   llen.where() if llen else None, 'field: %s' % lf):
         f = ctx.anchor(L + '::add')
         for path, outcome, decs in fn_paths(ctx, f):
             if outcome != 'return':
@@ -493,10 +498,23 @@ def r5_fetch_skeleton(ctx, rule='C01.R5'):
                     if tgt[0] == 'field' and len(tgt) > 3 and str(tgt[3]).split('<')[0].endswith('CQueue') and tgt[2] not in _NON_WINDOW(ctx) and tgt[2] not in params:
                         steps_.append(('w', 'inc', tgt[2], tgt[3], e[2][1], e[1].b, 'T'))
             for e in steps_:
-                reads = {x[2] for x in walk(e[4]) if x[0] == 'field' and not str(x[2]).isdigit()}
+                def chain(x):
+                    # names on the projection chain of a field read (`self.layout.n` -> {n, layout})
+                    out_ = set()
+                    while isinstance(x, tuple) and x and x[0] in ('field', 'deref', 'ref'):
+                        if x[0] == 'field' and not str(x[2]).isdigit():
+                            out_.add(x[2])
+                        x = x[1]
+                    return out_
+                reads = set()
+                for x in walk(e[4]):
+                    if x[0] == 'field' and not str(x[2]).isdigit():
+                        ch = chain(x)
+                        if not (ch & (window | params)):
+                            reads.add(x[2])
                 calls_ = {x[1] for x in walk(e[4]) if x[0] == 'call' and not x[1].startswith(('std::ops::', 'core::ops::', 'std::time::Duration::add', 'core::time::Duration::add')) and
                           x[1].split('::')[-1] not in ('add', 'add_assign', 'rem', 'clone', 'deref', 'deref_mut', 'from', 'into')}
-                alien = sorted(r for r in reads if r not in window and r not in params)
+                alien = sorted(reads)
                 k_ = (e[2], tuple(alien), tuple(sorted(calls_)))
                 if k_ in _seen_steps:
                     continue
